@@ -38,7 +38,7 @@ namespace awkward {
       .append(index_form_to_name(form_.get()->index()))
       .append("\n")
       .append(content_.get()->vm_output())
-      .append("variable index").append("\n");
+      .append("variable ").append(vm_func_name_).append("-count").append("\n");
 
     vm_func_.append(content_.get()->vm_func())
       .append(": ").append(vm_func_name()).append("\n")
@@ -47,13 +47,14 @@ namespace awkward {
       .append("drop").append("\n")
       .append(vm_output_data_).append(" <- stack").append("\n")
       .append("else").append("\n")
-      .append("1 index +!").append("\n")
-      .append("index @ 1- ")
+      .append("1 ").append(vm_func_name_).append("-count +!").append("\n")
+      .append(vm_func_name_).append("-count @ 1- ")
       .append(vm_output_data_).append(" <- stack").append("\n")
       .append(content_.get()->vm_func_name()).append("\n")
       .append("then").append("\n")
       .append(";").append("\n");
 
+    vm_data_from_stack_ = content_.get()->vm_from_stack();
     vm_error_ = content_.get()->vm_error();
   }
 
